@@ -223,21 +223,21 @@ theorem symTabFor_spec {o : Obj} {img : Bytes} (h : C01.ObjInv o img) (hlen : im
     obtain ⟨rfl, rfl⟩ := hs
     obtain ⟨i1, -⟩ := settle_spec h h1
     have hb := settle_sec h hlen h1
-    obtain ⟨j1, j2, -⟩ := settleOpt_spec i1 hlen (BitVec.setWidth 16 b.link).toNat
+    obtain ⟨j1, j2, -⟩ := settleOpt_spec i1 hlen (tq_sym_strtab_index b.link).toNat
     refine ⟨⟨hb.1, fun s hs => (j2 s hs).1, ?_⟩, ?_, ?_⟩
     · intro s hs
       dsimp only at hs
       split at hs
-      · cases hs
       · exact ((settleOpt_spec j1 hlen _).2.1 s hs).1
+      · cases hs
     · intro s hs
       dsimp only at hs
       split at hs
-      · cases hs
       · exact ((settleOpt_spec j1 hlen _).2.1 s hs).2
+      · cases hs
     · split
-      · exact j1
       · exact (settleOpt_spec j1 hlen _).1
+      · exact j1
 
 theorem liftQ_ok {α : Type} (o : Obj) {x : M α} (f : α → TQ.Out) (h : ∃ a, x = .ok a) :
     ∃ r, TQ.liftQ o x f = .ok r := by
